@@ -509,6 +509,14 @@ func RunCheck(o Options) int {
 		}
 	}
 
+	if chk.CrashInconclusive {
+		for i := range outs {
+			if outs[i].res.Verdict == Violated && (strings.HasPrefix(outs[i].res.Sig, "crash:") || strings.HasPrefix(outs[i].res.Sig, "deadlock:") || strings.HasPrefix(outs[i].res.Sig, "hang:")) {
+				outs[i].res.Verdict = Inconclusive
+				outs[i].res.Msg = "process-level failure (judged by C06, not here): " + outs[i].res.Sig + " " + Clip(outs[i].res.Msg, 200)
+			}
+		}
+	}
 	var results []Result
 	for _, oc := range outs {
 		results = append(results, oc.res)
